@@ -108,6 +108,7 @@ fn main() {
                 "reopen" => {
                     conc_exec::reopen(arg(&args, "--dir").expect("--dir"), arg(&args, "--n").unwrap_or("20").parse().unwrap(), &mut out);
                     conc_exec::regeometry(arg(&args, "--dir").expect("--dir"), &mut out);
+                    conc_exec::recreate_shapes(arg(&args, "--dir").expect("--dir"), arg(&args, "--n").unwrap_or("20").parse().unwrap(), &mut out);
                 }
                 m => panic!("unknown mode {m}"),
             }
